@@ -323,7 +323,10 @@ Qed.
 Lemma go_header_facts (b : bytes) (bs nmb total first : Z) (s : bytes) :
   wf_bytes b -> go_dbp_header b = GOk (bs, nmb, total, first, s) ->
   exists ubs unmb utotal b1 b2 b3,
-    go_uvarint b = Some (ubs, b1) /\ go_uvarint b1 = Some (unmb, b2) /    go_uvarint b2 = Some (utotal, b3) /\ go_varint b3 = Some (first, s) /    bs = Z.of_N ubs /\ nmb = Z.of_N unmb /\ total = Z.of_N utotal /    0 < unmb /\ utotal <= max_int32 /\ Nat.divide 8 (N.to_nat (ubs / unmb)) /\ wf_bytes s.
+    go_uvarint b = Some (ubs, b1) /\ go_uvarint b1 = Some (unmb, b2) /\
+    go_uvarint b2 = Some (utotal, b3) /\ go_varint b3 = Some (first, s) /\
+    bs = Z.of_N ubs /\ nmb = Z.of_N unmb /\ total = Z.of_N utotal /\
+    0 < unmb /\ utotal <= max_int32 /\ Nat.divide 8 (N.to_nat (ubs / unmb)) /\ wf_bytes s.
 Proof.
   intros Hwf H. unfold go_dbp_header in H.
   destruct (go_uvarint b) as [[ubs b1]|] eqn:E1; [|discriminate].
